@@ -259,6 +259,36 @@ def reserve_pair(eng, res, rule="R-RESERVE-PAIR"):
     res.ob(rule, fin, "returns-capped", "the finalisation returns the capped molecule", fin.node, bool(rets) and all(isinstance(r.value, ast.Name) and r.value.id == mv for r in rets))
 
 
+def handover_weight(eng, res, rule="R-HANDOVER-WEIGHT"):
+    """The descriptor the parser appends to a prefix / connector token towards the next stochastic object carries
+    weight 0: it is never picked when the token is attached to what precedes it and only serves the hand-over."""
+    import re
+
+    f = eng.prog.func("molecule.Molecule.__init__")
+    res.unit(f)
+    fl = eng.flow(f)
+    cfg = fl.cfg
+    sites = []
+    for n in own_nodes(f.node):
+        if isinstance(n, ast.Assign) and isinstance(n.value, ast.BinOp) and isinstance(n.value.op, ast.Add) and isinstance(n.value.right, ast.Constant) and isinstance(n.value.right.value, str):
+            if "|" in n.value.right.value:
+                sites.append(n)
+    ok = len(sites) == 1
+    why = f"{len(sites)} site(s) appending a weighted descriptor"
+    if ok:
+        n = sites[0]
+        lit = n.value.right.value
+        left = fl.expand_ssa(n.value.left, cfg.node_of(n))
+        ok = re.fullmatch(r"\|0(\.0*)?\|\]", lit) is not None and src(left).endswith("[:-1]") and "_create_compatible_bond_text(" in src(left) and "left_terminal" in src(left)
+        why = f"appends {src(left)[:80]} + {lit!r}"
+        g = [src(t) for t, pol in cfg.guard_exprs(cfg.node_of(n)) if pol]
+        ok = ok and any("len(" in x and "bond_descriptors" in x and "<" in x for x in g)
+    res.ob(rule, f, "outgoing-descriptor-weight-zero", "the automatically appended outgoing descriptor repeats the next object's left terminal and has weight 0", sites[0] if sites else f.node, ok, why)
+    # the two other insertions (front of a connector, front of a suffix) carry no weight: default 1
+    ins = [c for c in calls(f, "_create_compatible_bond_text")]
+    res.ob(rule, f, "incoming-descriptors-plain", "descriptors inserted at the front of a connector / suffix token are plain (weight 1)", f.node, len(ins) >= 3)
+
+
 def fully(eng, res, rule="R-FULLY"):
     fi = eng.prog.cls("MolGen").method("fully_generated")
     if fi is None:
@@ -288,6 +318,7 @@ def check(eng, res):
     res.doc("R-HANDOVER-GUARD", "the base-class guard dominates every attachment in each generate override; start closure before growth")
     res.doc("R-RESERVE-PAIR", "acquire/release pairing of the descriptor reserved for the right terminal; capping loop shape")
     res.doc("R-DO-WHILE", "at least one repeat unit: growth step dominates every loop exit")
+    res.doc("R-HANDOVER-WEIGHT", "the descriptor appended for the hand-over to the next object has weight 0")
     res.doc("R-FULLY", "fully_generated == no open descriptor")
     elem_order(eng, res)
     n = handover_guard(eng, res)
@@ -304,6 +335,7 @@ def check(eng, res):
             res.obligations.append(o)
     res.floor("R-HANDOVER-GUARD", n, 2)
     reserve_pair(eng, res)
+    handover_weight(eng, res)
     do_while(eng, res)
     fully(eng, res)
     res.floor("R-DO-WHILE", sum(1 for o in res.obligations if o.rule == "R-DO-WHILE"), 2)
